@@ -27,6 +27,7 @@ template<class K> struct StaticCase {
     std::vector<K> keys;
     std::vector<K> queries;
     int threads = 1;
+    int procs = 32; ///< value reported by the interposed omp_get_num_procs(): chunks = min(procs, threads, 20)
     std::string family;
     bool chunked = false;
     std::vector<size_t> seams; // indices of interest (chunk boundaries) for chunked cases
@@ -40,6 +41,7 @@ StaticCase<K> gen_seam_case(Rng &r, size_t eps, size_t maxn) {
     sc.chunked = true;
     sc.threads = 1 + int(r.below(20));
     if (r.chance(1, 3)) sc.threads = r.pick<int>({2, 3, 7, 16, 19, 20});
+    if (r.chance(1, 4)) sc.procs = 2 + int(r.below(22));
     size_t n = (size_t(1) << 15) + r.below(std::max<size_t>(maxn, (1u << 15) + 1) - (1u << 15));
     if (r.chance(1, 4)) n = (size_t(1) << 15) + r.below(64);
     sc.family = "seam";
@@ -57,7 +59,7 @@ StaticCase<K> gen_seam_case(Rng &r, size_t eps, size_t maxn) {
             default: g[i] = r.below(std::min<uint64_t>(2 * mean, 1u << 20) + 1); break; // uniform-ish
         }
     }
-    size_t t = size_t(sc.threads);
+    size_t t = size_t(std::min(std::min(sc.threads, sc.procs), 20));
     size_t chunk = n / t;
     for (size_t i = 1; i < t && chunk > 0; ++i) {
         size_t s = i * chunk;
@@ -132,6 +134,7 @@ StaticCase<K> make_static_case(Ctx &c, size_t eps, bool chunked, size_t maxn_sma
         sc.keys = c.given->vec<K>("keys");
         sc.queries = c.given->vec<K>("queries");
         sc.threads = c.given->one<int>("threads", 1);
+        sc.procs = c.given->one<int>("procs", 32);
         sc.family = c.given->one_str("family", "spec");
         sc.chunked = sc.keys.size() >= (1u << 15) && sc.threads > 1;
         sc.seams = c.given->vec<size_t>("seams");
@@ -170,21 +173,23 @@ template<class K> Spec static_spec(const Ctx &c, const StaticCase<K> &sc, const 
     s.set_one("case", c.case_idx);
     s.set_one("family", sc.family);
     s.set_one("threads", sc.threads);
+    s.set_one("procs", sc.procs);
     s.set_vec("keys", sc.keys);
     if (queries_run.size() <= 2000) s.set_vec("queries", queries_run);
     if (!sc.seams.empty()) s.set_vec("seams", sc.seams);
     return s;
 }
 
-inline void set_threads(int t) {
-    vf_fake_procs = 32;
+inline void set_threads(int t, int procs = 32) {
+    vf_fake_procs = procs;
     omp_set_num_threads(t);
 }
 
-/// number of construction chunks the library uses for n elements under the current thread setting
-inline size_t chunks_for(size_t n, int threads) {
-    if (threads <= 1 || n < (size_t(1) << 15)) return 1;
-    return size_t(std::min(std::min(32, threads), 20));
+/// number of construction chunks the library may use for n elements: min(procs, max_threads, 20), 1 below 2^15 keys
+inline size_t chunks_for(size_t n, int threads, int procs = 32) {
+    int p = std::min(std::min(procs, threads), 20);
+    if (p <= 1 || n < (size_t(1) << 15)) return 1;
+    return size_t(p);
 }
 
 struct NoExtra {
@@ -210,12 +215,13 @@ void run_static(Ctx &c, StaticCase<K> &sc, char which, Extra &extra) {
     Hasher h;
     h.add_vec(sc.keys);
     h.add(uint64_t(sc.threads));
+    h.add(uint64_t(sc.procs));
     c.input_hash = h.h;
     const size_t n = sc.keys.size();
     if (n == 0) return;
     c.predump();
 
-    set_threads(sc.threads);
+    set_threads(sc.threads, sc.procs);
     Idx *idx = nullptr;
     try {
         idx = new Idx(sc.keys.begin(), sc.keys.end());
@@ -298,7 +304,7 @@ void run_static(Ctx &c, StaticCase<K> &sc, char which, Extra &extra) {
     if (idx->height() >= 3) c.count("cases_height_ge3");
     if (sc.chunked) {
         c.count("chunked_cases");
-        c.count("chunks_" + std::to_string(chunks_for(n, sc.threads)));
+        c.count("chunks_" + std::to_string(chunks_for(n, sc.threads, sc.procs)));
         c.count("seams", sc.seams.size());
     }
     c.count("family_" + sc.family);
@@ -323,7 +329,7 @@ template<size_t EpsRec> struct PgmExtra : NoExtra {
         auto &off = pgm_verif::Access::levels_offsets(idx);
         const size_t n = sc.keys.size();
         size_t eps = Idx::epsilon_value;
-        size_t cb = chunks_for(n, sc.threads);
+        size_t cb = chunks_for(n, sc.threads, sc.procs);
         size_t m0 = idx.segments_count();
         // bottom level: segments_count() <= floor(n/(2eps+1)) + c + 1
         if (m0 > n / (2 * eps + 1) + cb + 1)
@@ -339,7 +345,7 @@ template<size_t EpsRec> struct PgmExtra : NoExtra {
         std::vector<size_t> m(L);
         for (size_t l = 0; l < L; ++l) m[l] = off[l + 1] - off[l] - 1;
         for (size_t l = 0; l + 1 < L; ++l) {
-            size_t cl = chunks_for(m[l], sc.threads);
+            size_t cl = chunks_for(m[l], sc.threads, sc.procs);
             size_t bound = m[l] / (2 * EpsRec + 1) + cl + 1;
             if (m[l + 1] > bound)
                 c.violation("level_size_bound", J().num("level", l + 1).num("size", m[l + 1]).num("below", m[l]).num("bound", bound));
@@ -347,7 +353,7 @@ template<size_t EpsRec> struct PgmExtra : NoExtra {
         // height: logarithmic. Simulate the bound until it stalls (<= 3 entries), allow 2 more levels.
         size_t u = m[0], hb = 1;
         while (u > 3 && hb < 64) {
-            u = u / (2 * EpsRec + 1) + chunks_for(u, sc.threads) + 1;
+            u = u / (2 * EpsRec + 1) + chunks_for(u, sc.threads, sc.procs) + 1;
             ++hb;
         }
         hb += 2;
